@@ -382,6 +382,19 @@ pub fn op_tok_new(s: &str) -> String {
             law_from.ck(*x == t, &format!("{n}_unequal"));
             law_from.ck(x.encoded() == enc, &format!("{n}_encoded"));
         }
+        // an owned `String` whose buffer has spare capacity (hidden state that must not matter), built in pieces
+        for extra in [1usize, 2, 8, 64] {
+            let mut sp = String::with_capacity(s.len() + extra);
+            for ch in s.chars() {
+                sp.push(ch);
+            }
+            let h: Token = Token::from(sp.clone());
+            let i: Token = Token::new(sp);
+            for (n, x) in [("from_string_spare", &h), ("new_string_spare", &i)] {
+                law_from.ck(*x == t, &format!("{n}_unequal"));
+                law_from.ck(x.encoded() == enc && x.decoded() == s, &format!("{n}_text"));
+            }
+        }
     }
     o.law("law_enc", &law_enc);
     o.law("law_dec", &law_dec);
